@@ -268,6 +268,11 @@ def _exec_cat(ctx, case):
     ctx.count("cat_checked")
     ctx.count("cat_translate" if tr else "cat_no_translate")
     what = f"cat_tree(a={a}, b={b}, translate={tr})"
+    for T, c, nm in ((A, ca, "tree1"), (B, cb, "tree2")):
+        for k, v in c.items():
+            if k not in T.ndata or not np.array_equal(T.ndata[k], v):
+                return ctx.violation("input-mutated", f"{what}: {nm} column {k!r} was modified",
+                                     case)
     if type(A).__name__ == "Tree" and type(B).__name__ == "Tree" and (a + b) % 4 == 0:
         # both trees held under custom column names (`names=`): the same concatenation
         r = G.same_under_renaming(lambda p_, q_: cat_tree(p_, q_, a, b, translate=tr), A, B,
@@ -275,11 +280,6 @@ def _exec_cat(ctx, case):
         ctx.count("operations_under_custom_column_names")
         if r:
             return ctx.violation("custom-column-names", f"{what}: {r}", case)
-    for T, c, nm in ((A, ca, "tree1"), (B, cb, "tree2")):
-        for k, v in c.items():
-            if k not in T.ndata or not np.array_equal(T.ndata[k], v):
-                return ctx.violation("input-mutated", f"{what}: {nm} column {k!r} was modified",
-                                     case)
     wf = topo.well_formed(out.id(), out.pid())
     if wf:
         return ctx.violation("malformed-result", f"{what}: {wf}", case)
